@@ -164,9 +164,10 @@ class SocketWrapper:
                 break
             if chunk_length != 0:
                 chunk = instream.read(chunk_length)
-                if len(chunk) != chunk_length:
-                    # premature end of chunk bytes
-                    partial = length_bytes + chunk
+                crlf = instream.read(2)
+                if len(chunk) != chunk_length or len(crlf) != 2:
+                    # premature end of chunk bytes or of terminating CRLF
+                    partial = length_bytes + chunk + crlf
                     break
                 try:
                     if self._encoding & ENCODE_GZIP:
@@ -180,7 +181,6 @@ class SocketWrapper:
                     # parser will discard data
                 chunks += chunk
 
-            instream.readline()
             if chunk_length == 0:
                 # final chunk
                 break
